@@ -299,13 +299,36 @@ static_services:
 				out.Obs = append(out.Obs, observe(x, "write failed: "+err.Error()))
 				break
 			}
-			res := readReply(uc, 3*time.Second)
-			name := res.name
-			if res.err != nil {
-				name = "timeout"
+			// wait for the reply; a process that is dumping a fatal error (the dump of a 1 GB stack takes
+			// seconds) is recognised from its log and put out of its misery
+			rch := make(chan rdRes, 1)
+			go func() { rch <- readReply(uc, 3*time.Second) }()
+			name, crashed := "", false
+			tick := time.NewTicker(50 * time.Millisecond)
+		wait:
+			for {
+				select {
+				case res := <-rch:
+					name = res.name
+					if res.err != nil {
+						name = "timeout"
+					}
+					break wait
+				case <-tick.C:
+					if par.crashLines() != "" {
+						name, crashed = "none (the process is crashing)", true
+						break wait
+					}
+				}
 			}
-			if x == "term" || name == "eof" || name == "timeout" {
-				// terminate: the process exits by itself; a crash: let the dump finish
+			tick.Stop()
+			if crashed {
+				out.Crash = par.crashLines()
+				par.cmd.Process.Kill()
+				par.waitExit(2 * time.Second)
+				par.exit = "fatal error, killed by the harness during the crash dump"
+			} else if x == "term" || name == "eof" || name == "timeout" {
+				// terminate: the process exits by itself
 				par.waitExit(4 * time.Second)
 			}
 			out.Obs = append(out.Obs, observe(x, name))
@@ -313,7 +336,9 @@ static_services:
 				break
 			}
 		}
-		out.Crash = par.crashLines()
+		if out.Crash == "" {
+			out.Crash = par.crashLines()
+		}
 	case "realchild":
 		child, err := startSam(bin, dir, "child", cfg, []string{
 			fmt.Sprintf("__Samaritan_Parent__=%d", pid), "__Samaritan_Parent_Terminate_Time__=700ms"})
